@@ -685,14 +685,22 @@ class StmtMixin:
         i0 = z3.Int(fresh_name("cp"))
         # keyat(i) terms are created for every source element term (seq.nth of the iterated sequence), so that facts about
         # source positions reach the result; the key term itself is tried as a trigger too (not possible for an ite)
+        kdef = keyf(i0) == at(kterm, i0)
         pats = [keyf(i0)]
+        cands = [at(kterm, i0)]
         if info.seqval is not None and not info.seqval.is_py:
-            pats.append(lift(info.seqval)[i0])
-        try:
-            st.assume(z3.ForAll([i0], keyf(i0) == at(kterm, i0), patterns=pats + [at(kterm, i0)]))
-        except z3.Z3Exception:
-            st.assume(z3.ForAll([i0], keyf(i0) == at(kterm, i0), patterns=pats))
+            cands.append(lift(info.seqval)[i0])
+        for cand in cands:
+            try:
+                z3.ForAll([i0], kdef, patterns=[cand])  # z3 rejects terms that cannot be triggers (ite, pure arithmetic, ..)
+                pats.append(cand)
+            except z3.Z3Exception:
+                pass
+        st.assume(z3.ForAll([i0], kdef, patterns=pats))
         st.assume(z3.ForAll([i0], z3.Implies(at(passing, i0), z3.Select(dom, keyf(i0))), patterns=[keyf(i0)]))
+        # the same over the raw key term with the solver's own triggers: an instance only creates the atom dom[key(i)] (no
+        # new position terms, hence no matching loop) and lets goals that start from a SOURCE element reach the domain
+        st.assume(z3.ForAll([i0], z3.Implies(at(passing, i0), z3.Select(dom, at(kterm, i0)))))
         ly = last(y)
         st.assume(z3.ForAll([y], z3.Implies(z3.Select(dom, y), z3.And(at(passing, ly), keyf(ly) == y)), patterns=[z3.Select(dom, y), ly]))
         li = last(keyf(i0))
